@@ -112,16 +112,28 @@ def alphabet(P):
     toks = ["a", "b", "s", "S", "A", "Z", "x", " ", " ", "\t", "'", "`", "{", "0", "7", "-", "&", ";", "year", "old", "quot", "amp",
             "É", "ß", "İ", "Σ", "σ", "ﬁ", "Å", "Å", "①", " ", " ", "　", "�", "\u0085",
             "\U0001F600", "\U0001D400", "\U00010400", "\U0010FFFF", "\U00020000"]
+    # characters below U+0300 that NFKC changes (no combining mark involved), characters that toLower changes
+    # although they are not category Lu (titlecase digraphs, Roman numerals, circled capitals)
+    toks += list(BELOW_0300_NFKC) + list(NON_LU_LOWER)
     for t in P["tables"].values():
         for frm, to in t:
             toks.append(frm)
             toks.append(frm[0])
+            # supplementary-plane characters whose low 16 bits equal a rule trigger
+            for plane in (1, 2, 16):
+                cp = plane * 0x10000 + ord(frm[0])
+                if cp <= 0x10FFFF:
+                    toks.append(chr(cp))
             if len(frm) > 2:
                 toks.append(frm[:len(frm) // 2])
                 toks.append(frm[1:])
                 toks.append(frm + "x")
                 toks.append(frm + " ")
     return list(dict.fromkeys(toks))
+
+
+BELOW_0300_NFKC = "\u00a0\u00a8\u00aa\u00af\u00b2\u00b3\u00b4\u00b5\u00b8\u00b9\u00ba\u00bc\u00bd\u00be\u0132\u0133\u013f\u0140\u0149\u017f\u01c4\u01c5\u01c6\u01c7\u01c8\u01c9\u01ca\u01cb\u01cc\u01f1\u01f2\u01f3\u02b0\u02b2\u02b7\u02d8\u02d9\u02da\u02db\u02dc\u02dd\u02e0\u02e2\u02e3"
+NON_LU_LOWER = "\u01c5\u01c8\u01cb\u01f2\u1f88\u1f8f\u1fbc\u2160\u2167\u216f\u24b6\u24cf"
 
 
 def rand_line(rng, toks, n):
@@ -187,6 +199,8 @@ def main(argv):
         for frm, to in t:
             lines += [frm + frm, "a" + frm, frm + "a", "a " + frm + " b", frm + "\U0001F600", "\U0001F600" + frm]
     lines += ["a\U0001F600b", "\U0001F600", "\U0001F600\U0001F600", "x\U0010FFFF", "' s", "' s ", "a' s", "' sfoo", "' s x", "' s\U0001F600",
+              "chapter \u2167", "\u01c5", "\u24b6\u24cf x", "\u1f88 a", "x\u2160\u216f", "a\u00a0b", "1\u00bd kg", "\u00b5m \u00b2", "n\u00ba 3", "\u0133 \u0140 \u017f", "\u02b0\u02e2", "\u01c5 \u01f2",
+              "a\U000200abb", "\U00020027 s", "\U00022026", "\U00012019x", "\U0001201c\U0001201d", "\U00010026 amp ;", "\U00010020- year - old",
               "' S", "a' S b", "5 - YEAR - OLD", "& QUOT ;", "& Amp ;", "Æ' S", "' s\u00a0x", "' s\u2028", "' s\tx", "' s\u3000", "' s\u0085", "' s\u200b", "' s\u00a0", "5 - year - old\u00a0k",
               "5 - year - old", "5 - year - old ", "5 - year - olds", "5 - years - old\t", "''' s ", "````", "& amp ; quot ;", "& amp", "& amp ;;",
               "3{4{{", "ΑΣ ΑΣΑ", "İstanbul", "ǅ", "ﬁﬁ", "Å̧"]
@@ -233,6 +247,30 @@ def main(argv):
                     break
     if not quick:
         asan_lines(c, "hx_flatten", fl + ["L " + hx(u8(l)) for l in lines[:3000]] + ["N " + hx(u8(l)) for l in lines[:3000]], what="(Flatten::Apply, toLower, Normalize)")
+    # ---- library level: util::Normalize (both overloads) and util::ToLower vs ICU's NFKC / toLower
+    icu.need("N", lines)
+    icu.need("L", lines)
+    rc, nuo, err = run_lines(impl, ["NU " + hx(u8(l)) for l in lines] + ["LU " + hx(u8(l)) for l in lines])
+    if len(nuo) != 2 * len(lines):
+        c.broken.append("harness hx_flatten died on Normalize/ToLower cases: " + err[-300:])
+    else:
+        c.cov["traces_validated_against_impl"] += 2 * len(lines)
+        for l, o in zip(lines, nuo[:len(lines)]):
+            cat = "all-below-U+0300" if l and all(ord(ch) < 0x300 for ch in l) else "other"
+            c.count(("NU", l), nontrivial=len(l) > 0, bucket="normalize/" + cat + ("/changed" if icu.nfkc(l) != l else "/unchanged"))
+            want = "OK " + hx(u8(icu.nfkc(l)))
+            if o != want:
+                c.violation("normalize: util::Normalize(%r) = %s, ICU NFKC gives %r" % (l, (unhx(o.split()[1]).decode("utf-8", "replace") if o.startswith("OK ") else o), icu.nfkc(l)),
+                            {"op": "util::Normalize", "input": l, "input_hex": hx(u8(l)), "impl": o, "expected": want, "how": "harness hx_flatten: NU %s  |  printf '%%s\\n' <input> | process_unicode --normalize" % hx(u8(l))})
+                break
+        import unicodedata
+        for l, o in zip(lines, nuo[len(lines):]):
+            cat = "no-Lu" if l and not any(unicodedata.category(ch) == "Lu" for ch in l) else "has-Lu"
+            c.count(("LU", l), nontrivial=len(l) > 0, bucket="lower/" + cat + ("/changed" if icu.lower(l) != l else "/unchanged"))
+            want = "OK " + hx(u8(icu.lower(l)))
+            if o != want and "\u03a3" not in l:      # (final sigma: UnicodeString::toLower and ucasemap agree, kept out only to be safe)
+                c.violation("lower: util::ToLower(%r) = %s, UnicodeString::toLower gives %r" % (l, o, icu.lower(l)), {"op": "util::ToLower", "input": l, "impl": o, "expected": want})
+                break
     starts = {code: build_starts(P, var) for var, code in langs}
     if fout is not None:
         for (code, l), o in zip(fcases, fout):
@@ -253,11 +291,18 @@ def main(argv):
     # ---- tool level: bin/process_unicode x 8 flag sets x languages
     inputs = []
     fixed = [["A“x” É", "B“y” É", "C“z” É", "D“w” É", "E“v” É"], ["ﬁ", "ﬁ", "ﬁ"], ["a\U0001F600b"], [""], ["", "", "x"],
-             ["' s", "5 - year - old", "``q''"], ["İ", "ΑΣ", "①"], ["a' S", "5 - YEAR - OLD x", "& QUOT ;"]]
+             ["' s", "5 - year - old", "``q''"], ["İ", "ΑΣ", "①"], ["a' S", "5 - YEAR - OLD x", "& QUOT ;"],
+             ["chapter \u2167", "\u01c5", "\u24b6\u24cf x", "\u1f88"], ["a\u00a0b", "1\u00bd kg", "\u00b5m\u00b2", "n\u00ba 3 \u0133\u017f"],
+             ["a\U000200abb", "\U00020027 s", "\U00022026 \U00012019"]]
     for f in fixed:
         inputs.append(f)
     for i in range(12 if quick else 400):
         inputs.append([rand_line(rng, toks, rng.choice((0, 1, 2, 3, 5, 8))) for _ in range(rng.choice((1, 2, 3, 4, 5, 7)))])
+    low = [ch for ch in BELOW_0300_NFKC] + ["a", "b", " ", "e", "1"]
+    nolu = [ch for ch in NON_LU_LOWER] + ["a", "b", " ", "x", "3"]
+    for i in range(6 if quick else 80):
+        inputs.append([rand_line(rng, low, rng.choice((1, 2, 4, 7))) for _ in range(rng.choice((1, 2, 3)))])    # every unit < U+0300
+        inputs.append([rand_line(rng, nolu, rng.choice((1, 2, 4, 7))) for _ in range(rng.choice((1, 2, 3)))])   # no category-Lu character
     truns = []
     for k, ls in enumerate(inputs):
         for fs in FLAGSETS:
@@ -287,6 +332,12 @@ def main(argv):
         outs.append((st, so))
         nflag = fs.count("1")
         c.count(("P", fs, code, data), nontrivial=len(data) > 1, bucket="tool/flags=%s/%d-lines" % (fs, min(len(ls), 4)))
+        import unicodedata as _ud
+        for src in ls:
+            if fs[2] == "1" and src and all(ord(ch) < 0x300 for ch in src) and icu.nfkc(src) != src and fs[:2] == "00":
+                c.cov["distribution"]["tool-line/normalize-only,all-below-U+0300,NFKC-changes-it"] = c.cov["distribution"].get("tool-line/normalize-only,all-below-U+0300,NFKC-changes-it", 0) + 1
+            if fs[0] == "1" and src and not any(_ud.category(ch) == "Lu" for ch in src) and icu.lower(src) != src:
+                c.cov["distribution"]["tool-line/lower,no-Lu-character,toLower-changes-it"] = c.cov["distribution"].get("tool-line/lower,no-Lu-character,toLower-changes-it", 0) + 1
         rep = {"op": "process_unicode", "argv": argv[1:], "stdin": data.decode("utf-8"), "stdin_hex": hx(data), "status": st,
                "stdout": so.decode("utf-8", "replace"), "stderr": se.decode("utf-8", "replace")[-300:],
                "how": "printf '<stdin>' | process_unicode " + " ".join(argv[1:])}
